@@ -147,6 +147,7 @@ func c01Property(t *rapid.T) {
 	w := tpl.Instantiate("c01p")
 	defer w.N.Destroy()
 	g := newHistGen(t, w)
+	g.replays = 6 // primary and replicas
 	// favour the map-heavy paths
 	g.weights = append(g.weights, "group", "group", "group", "group", "ibtp-req", "ibtp-rcpt", "gov-vote", "gov-lifecycle", "gov-register-service", "eth", "eth")
 	var ops []string
